@@ -72,7 +72,7 @@ def sim_cfg(k, ident):
     return {"idle": 10.0, "c_suites": list(k["cs"]), "s_suites": list(k["ss"]), "c_alpn": al(k["ca"]), "s_alpn": al(k["sa"]),
             "c_versions": list(k["cv"]), "c_orig": None if k["co"] == "none" else k["co"], "s_versions": list(k["sv"]),
             "s_ident": ident, "c_ident": "client" if k["creq"] == "cert" else None, "creq": k["creq"] != "no",
-            "retry": bool(k["retry"])}
+            "retry": bool(k["retry"]), "server_name": "192.0.2.10" if ident.startswith("ip-") else None}
 
 
 def job_fn(job):
@@ -86,7 +86,7 @@ def job_fn(job):
     if k["cpsk"]:
         # a first connection to the AUTHENTIC server (same option lists) hands out the ticket
         store = {}
-        s1 = MitmSim(_A, dict(base, s_ident="fixture", ticket_store=store, retry=False, creq=False, c_ident=None),
+        s1 = MitmSim(_A, dict(base, s_ident="ip-valid" if ident.startswith("ip-") else "fixture", ticket_store=store, retry=False, creq=False, c_ident=None),
                      seed=job["seed"] ^ 0x5A5A, pki=_PKI)
         try:
             s1.connect()
